@@ -62,6 +62,8 @@ def decLoadsInj (s : Bool) : (ops : List Op) → Decidable (LoadsInj s ops)
   | .get _ :: rest => decLoadsInj s rest
   | .byKey _ _ :: rest => decLoadsInj s rest
   | .list :: rest => decLoadsInj s rest
+  | .tpark _ :: rest => decLoadsInj s rest
+  | .tresume _ :: rest => decLoadsInj s rest
 
 instance (c : Cfg) (s : Bool) (v : Nat) (st : State) (ops : List Op) : Decidable (OnePerKeyAt c s v st ops) :=
   decOnePerKeyAt c s v st ops
@@ -187,11 +189,13 @@ theorem index_bijection_key_partial (c : Cfg) (s : Bool) (v : Nat) (ops0 ops : L
 
 /-- Same per-key hypotheses: deleting primary `k` in the reached state frees the entry of `(s, v)` exactly if it
     resolved to `k` and otherwise leaves it — and the answer of the lookup by that key as the API gives it — unchanged.
-    (That the delete changes no other primary's record and removes `k` needs no hypothesis: `delete_frame_prim`.) -/
+    (That the delete changes no other primary's record and removes `k` needs no hypothesis: `delete_frame_prim`.)
+    `k ∉ term`: a session whose TerminateSession is parked between its two critical sections answers "already
+    terminating" to a further delete; its removal is the second phase, `terminate_second_phase_frame_*` below. -/
 theorem index_release_frame_key_partial (c : Cfg) (s : Bool) (v : Nat) (ops0 ops : List Op)
     (h0 : KInv s v (run c init ops0))
     (h1 : OnePerKeyAt c s v (run c init ops0) ops) (h2 : NoRekeyAt c s v (run c init ops0) ops)
-    (k : Nat) (hacc : c.accepts (.delete k) = true) :
+    (k : Nat) (hacc : c.accepts (.delete k) = true) (hk : k ∉ (run c (run c init ops0) ops).term) :
     AMap.lookup ((step c (run c (run c init ops0) ops) (.delete k)).1.idx s) v =
       (if AMap.lookup ((run c (run c init ops0) ops).idx s) v = some k then none
        else AMap.lookup ((run c (run c init ops0) ops).idx s) v) ∧
@@ -200,7 +204,7 @@ theorem index_release_frame_key_partial (c : Cfg) (s : Bool) (v : Nat) (ops0 ops
        else byKey c (run c (run c init ops0) ops) s v) := by
   have hK := kinv_run h0 ops h1 h2
   have hs : (step c (run c (run c init ops0) ops) (.delete k)).1 = (delete c (run c (run c init ops0) ops) k).1 := by
-    simp [step, hacc]
+    simp [step, hacc, hk]
   rw [hs]
   have f3 := delete_frame_at (c := c) hK k
   obtain ⟨f1, _⟩ := delete_prim c (run c (run c init ops0) ops) k
@@ -217,12 +221,85 @@ theorem index_release_frame_key_partial (c : Cfg) (s : Bool) (v : Nat) (ops0 ops
       simp only [f1 id hne]
 
 /-- Every flavour, every state (no hypothesis): deleting primary `k` changes no other primary's record and removes `k`. -/
-theorem delete_frame_prim (c : Cfg) (st : State) (k : Nat) (hacc : c.accepts (.delete k) = true) :
+theorem delete_frame_prim (c : Cfg) (st : State) (k : Nat) (hacc : c.accepts (.delete k) = true)
+    (hk : k ∉ st.term) :
     (∀ id, id ≠ k → AMap.lookup (step c st (.delete k)).1.prim id = AMap.lookup st.prim id) ∧
     AMap.lookup (step c st (.delete k)).1.prim k = none := by
-  have hs : (step c st (.delete k)).1 = (delete c st k).1 := by simp [step, hacc]
+  have hs : (step c st (.delete k)).1 = (delete c st k).1 := by simp [step, hacc, hk]
   rw [hs]
   exact delete_prim c st k
+
+/-! ### subscriber.Manager.TerminateSession is two critical sections (`tpark` … other operations … `tresume`)
+
+  `index_sound`, `index_sound_submgr`, `index_bijection_key_partial` above quantify over ALL histories of `Op`, which
+  contains `tpark` and `tresume`: they hold for every interleaving of other operations between the two phases.  What
+  makes the window safe on the code as it is, is proved here. -/
+
+/-- Every parked TerminateSession belongs to a live session: between the two critical sections the session is still in
+    the session map (every history). -/
+theorem terminating_is_live (ops : List Op) (id : Nat) (h : id ∈ (run submgr init ops).term) :
+    ∃ r, AMap.lookup (run submgr init ops).prim id = some r :=
+  run_submgr_termLive (fun id h => by simp [init] at h) ops id h
+
+/-- THE guard of the window: after any history, while a session's TerminateSession is parked between its two critical
+    sections (in fact: while the session is in the session map at all), CreateSession for its MAC is refused — so the
+    second critical section, which deletes byMAC[mac] BY VALUE, can only ever delete the entry of the session it is
+    removing.  (The seeded change C20e accepts that create; then the second phase deletes the NEW session's entry.) -/
+theorem create_refused_in_window (ops : List Op) (id : Nat) (hid : id ∈ (run submgr init ops).term) :
+    ∃ r, AMap.lookup (run submgr init ops).prim id = some r ∧
+      ∀ m, r.k0 = some m →
+        step submgr (run submgr init ops) (.create none (some m) none) = (run submgr init ops, .conflict) := by
+  obtain ⟨r, h⟩ := terminating_is_live ops id hid
+  have hI : ∀ v, KInv false v (run submgr init ops) :=
+    run_submgr_kinv0 (fun v => kinv_init false v) fresh_init ops
+  exact ⟨r, h, fun m hm => submgr_create_indexed ((hI m).fwd id r h hm)⟩
+
+/-- A second TerminateSession of a session that is already being torn down is refused and changes nothing. -/
+theorem second_terminate_refused (st : State) (id : Nat) (hid : id ∈ st.term) :
+    step submgr st (.delete id) = (st, .busy) ∧ step submgr st (.tpark id) = (st, .busy) := by
+  simp [step, submgr, submgrAccepts, tpark, hid]
+
+/-- Release frame of the second phase, primary map (no hypothesis on the history, any state): it changes no other
+    session's record and removes the session. -/
+theorem terminate_second_phase_frame_prim (st : State) (k : Nat) (hk : k ∈ st.term) :
+    (∀ id, id ≠ k → AMap.lookup (step submgr st (.tresume k)).1.prim id = AMap.lookup st.prim id) ∧
+    AMap.lookup (step submgr st (.tresume k)).1.prim k = none := by
+  rw [submgr_step_tresume hk]
+  exact delete_prim submgr _ k
+
+/-- Release frame of the second phase, MAC index (EVERY history, whatever ran between the two phases): the second
+    critical section clears byMAC[m] exactly if it resolved to the session being removed and leaves every other
+    entry — hence every other live session's lookup by MAC — unchanged. -/
+theorem terminate_second_phase_frame_mac (ops : List Op) (k : Nat) (hk : k ∈ (run submgr init ops).term) (m : Nat) :
+    AMap.lookup (step submgr (run submgr init ops) (.tresume k)).1.i0 m =
+      (if AMap.lookup (run submgr init ops).i0 m = some k then none else AMap.lookup (run submgr init ops).i0 m) := by
+  have hI : KInv false m (run submgr init ops) :=
+    run_submgr_kinv0 (fun v => kinv_init false v) fresh_init ops m
+  rw [submgr_step_tresume hk]
+  exact delete_frame_at (c := submgr) (kinv_term hI _) k
+
+/-- Release frame of the second phase for any key (the address index included), under the per-key hypotheses. -/
+theorem terminate_second_phase_frame_key_partial (s : Bool) (v : Nat) (ops0 ops : List Op)
+    (h0 : KInv s v (run submgr init ops0))
+    (h1 : OnePerKeyAt submgr s v (run submgr init ops0) ops) (h2 : NoRekeyAt submgr s v (run submgr init ops0) ops)
+    (k : Nat) (hk : k ∈ (run submgr (run submgr init ops0) ops).term) :
+    AMap.lookup ((step submgr (run submgr (run submgr init ops0) ops) (.tresume k)).1.idx s) v =
+      (if AMap.lookup ((run submgr (run submgr init ops0) ops).idx s) v = some k then none
+       else AMap.lookup ((run submgr (run submgr init ops0) ops).idx s) v) := by
+  have hK := kinv_run h0 ops h1 h2
+  rw [submgr_step_tresume hk]
+  exact delete_frame_at (c := submgr) (kinv_term hK _) k
+
+/-- the window exists and the guard fires in it: session 1 (MAC 1, address 1) is parked; a create for MAC 1 is refused,
+    a create for MAC 2 and an assignment run; after the second phase MAC 1 is free again and MAC 2 is still found -/
+example :
+    let ops : List Op := [.create none (some 1) none, .setKey 1 true 1, .tpark 1]
+    (run submgr init ops).term = [1] ∧
+    (step submgr (run submgr init ops) (.create none (some 1) none)).2 = .conflict ∧
+    lastObs submgr init (ops ++ [.create none (some 2) none, .delete 1, .tresume 1, .byKey false 2]) =
+      .found 2 ⟨some 2, none⟩ ∧
+    lastObs submgr init (ops ++ [.create none (some 2) none, .tresume 1, .create none (some 1) none]) = .okId 3 := by
+  decide
 
 /-- All keys at once (corollary of `index_bijection_key_partial` from the initial state): if the history is clean for
     every key, index and primary map are mutually inverse. -/
@@ -238,10 +315,10 @@ theorem index_bijection_inv_partial (c : Cfg) (ops : List Op)
 /-- All keys at once (corollary of `index_release_frame_key_partial`). -/
 theorem index_release_frame_partial (c : Cfg) (ops : List Op)
     (h1 : ∀ s v, OnePerKeyAt c s v init ops) (h2 : ∀ s v, NoRekeyAt c s v init ops)
-    (k : Nat) (hacc : c.accepts (.delete k) = true) (s : Bool) (v : Nat) :
+    (k : Nat) (hacc : c.accepts (.delete k) = true) (hk : k ∉ (run c init ops).term) (s : Bool) (v : Nat) :
     byKey c (step c (run c init ops) (.delete k)).1 s v =
       (if AMap.lookup ((run c init ops).idx s) v = some k then .none else byKey c (run c init ops) s v) :=
-  (index_release_frame_key_partial c s v [] ops (kinv_init s v) (h1 s v) (h2 s v) k hacc).2
+  (index_release_frame_key_partial c s v [] ops (kinv_init s v) (h1 s v) (h2 s v) k hacc hk).2
 
 /-! ### non-vacuity: an offending operation on key X, a conclusion for the clean key Y -/
 
